@@ -87,6 +87,9 @@ def run(ctx):
         ctx.saw(f)
         n2 += 1
         rv = prov.prov_of(f).return_value()
+        # the result literal may be built by a private helper that receives the attributes (`embed(self.attrs, pp, ..)`, `values.into_attributes(self.attrs, ..)`)
+        rv = prov.inline_all(F, rv, depth=2, _seen=(f.path,), only=lambda f_: not f_.get('trait') and (f_.get('path') or '').startswith('%s::performance::calculator' % mode)
+                             and (f_.get('output') or f_.get('ret') or True))
         d = prov.project_field(rv, 'difficulty')
         ctx.require(as_param_path(d, through_calls=False) == (1, ('attrs',)) and untouched(d), 'C04-R2', '%s:embedded' % mode,
                     '%sPerformanceAttributes.difficulty = self.attrs, untouched' % CAP[mode], f.where(),
